@@ -401,12 +401,27 @@ impl Check for C12 {
         false
     }
     fn required_counters(&self, _tier: Tier) -> Vec<&'static str> {
-        vec!["failed-serialisations-before-roundtrips", "tags-judged", "golden-vectors", "hostile-inputs", "roundtrip:register_with_payment"]
+        vec!["failed-serialisations-before-roundtrips", "tags-judged", "golden-vectors", "hostile-inputs", "roundtrip:register_with_payment", "log-events-formatted"]
     }
     fn miri_lane(&self, tier: Tier) -> Option<(Vec<&'static str>, usize, usize)> {
         if tier == Tier::Thorough { Some((vec!["record", "message", "address"], 12, 400)) } else { None }
     }
     fn run_case(&self, cx: &mut Cx) {
+        // odd cases run with logging enabled, as the shipped binaries do (arguments of log statements are evaluated)
+        let logging = cx.index % 2 == 1;
+        crate::logsink::set(logging);
+        let ev0 = crate::logsink::events();
+        self.run_case_inner(cx);
+        if logging {
+            cx.count("cases-with-logging-enabled");
+            cx.count_n("log-events-formatted", crate::logsink::events() - ev0);
+        }
+        crate::logsink::set(false);
+    }
+}
+
+impl C12 {
+    fn run_case_inner(&self, cx: &mut Cx) {
         if cx.index == 0 {
             check_tags(cx);
             check_golden(cx);
